@@ -645,9 +645,9 @@ func (c17) Gen(rng *rand.Rand, tier string, idx int) Case {
 	}
 	c.Cfg = append(c.Cfg, kl)
 	alpha := []string{"s:" + hx("a"), "s:" + hx("b"), "s:" + hx("c"), "s:" + hx("d"), "n", "m"}
-	risky := rng.Intn(12) == 0 && nk > 0
-	if risky { // separator bytes inside key parts, NULL next to the empty string
-		alpha = []string{"s:" + hx("a|b"), "s:" + hx("a"), "s:" + hx("b"), "s:" + hx("b|c"), "s:" + hx("c"), "s:-", "n", "s:" + hx("|")}
+	risky := rng.Intn(5) == 0 && nk > 0
+	if risky { // separator and escape bytes inside key parts, NULL next to the empty string and to the text \N
+		alpha = []string{"s:" + hx("a|b"), "s:" + hx("a"), "s:" + hx("b"), "s:" + hx("b|c"), "s:" + hx("c"), "s:-", "n", "s:" + hx("|"), "s:" + hx(`\N`), "s:" + hx(`a\`), "m"}
 		c.Stat = append(c.Stat, "risky-key-alphabet")
 	}
 	ngroups := 1 + rng.Intn(4)
